@@ -27,6 +27,13 @@ def probe(job):
         return "EXC:" + type(e).__name__
 
 
+def probe_pair(job):
+    """one process, the same numeric date read by both calendars one after the other"""
+    first, s = job
+    second = "hijri" if first == "jalali" else "jalali"
+    return [probe((first, s)), probe((second, s))]
+
+
 def oracle_year(job):
     """reference conversion (convertdate.persian: astronomical, ~25 ms per date) of the needed days of one Jalali year"""
     from convertdate import persian
@@ -100,6 +107,23 @@ def run(ctx):
                 forms.append(("%04d-%02d-%02d %02d:%02d" % (y, m, d, hh, mi), g.replace(hour=hh, minute=mi)))
                 for s, e in (forms if tier != "quick" else R.sample(forms, 2)):
                     add("hijri", s, e.isoformat(), "hijri/numeric")
+    # the same year/month/day read by both calendars in one process, in both orders (years the two calendars share): each reading is
+    # its own calendar's date, whatever the other calendar was asked before
+    pair_jobs, pair_meta = [], []
+    for y, tab in zip(years, tables):
+        if not (1343 <= y <= 1500):
+            continue
+        for m in (range(1, 13) if tier != "quick" else R.sample(range(1, 13), 3)):
+            ml, conv = tab[m]
+            for d in (1, 13, 29):
+                if d not in conv or d > min(Hijri(y, m, 1).month_length(), 30):
+                    continue
+                s_ = "%04d/%02d/%02d" % (y, m, d)
+                ej = D(*conv[d]).isoformat()
+                eh = D(*Hijri(y, m, d).to_gregorian().datetuple()).isoformat()
+                for first in ("jalali", "hijri"):
+                    pair_jobs.append((first, s_)); pair_meta.append((ej, eh))
+    pres = pmap(probe_pair, pair_jobs, chunksize=1, force=True)
     res = pmap(probe, jobs, chunksize=256)
     known = load_known("C15")
     viol = []
@@ -113,10 +137,20 @@ def run(ctx):
             continue
         key = {"stratum": stratum, "rule": "?"}
         viol.append({"calendar": kind, "string": s, "expected": exp, "observed": r, "stratum": stratum})
+    for (first, s_), (ej, eh), rr in zip(pair_jobs, pair_meta, pres):
+        second = "hijri" if first == "jalali" else "jalali"
+        for kind, r in zip((first, second), rr):
+            strata["both-calendars-one-process"] += 1
+            exp = ej if kind == "jalali" else eh
+            if r == exp:
+                ok += 1
+            else:
+                viol.append({"calendar": kind, "string": s_, "expected": exp, "observed": r, "stratum": "both-calendars-one-process",
+                             "history": "%s read the same string first in this process" % first if kind == second else "first call of the pair"})
     out = [{"replay": write_replay("C15", "cal-%d" % j, {"property": "C15", "kind": "calendar parser differs from the reference conversion", **v})} for j, v in enumerate(viol[:10])]
     if viol:
         write_replay("C15", "all-failing", {"rows": viol[:2000], "by_stratum": dict(collections.Counter(v["stratum"] for v in viol))})
-    cov = {"evaluations": len(jobs), "distinct_nontrivial": ok,
+    cov = {"evaluations": len(jobs) + 2 * len(pair_jobs), "distinct_nontrivial": ok,
            "rule": "Jalali years 1200..1500 × months × days (thorough: every day of every 10th year and of the years around leap boundaries, the boundary days of every other year) × numeric spellings (incl. Persian digits, time suffix) and every listed month-name variant with weekday variants and spelled-out days; Hijri 1343..1500 × numeric spellings; oracle = convertdate.persian / hijridate called directly; non-trivial = cases equal to the reference conversion",
            "samples": [{"calendar": jobs[i][0], "s": jobs[i][1], "expect": meta[i][0]} for i in range(0, len(jobs), max(1, len(jobs) // 6))][:6],
            "strata": dict(strata), "wrapper_violations": len(viol)}
